@@ -288,6 +288,7 @@ structure EncHdr where
   antiCollapseRsv : Nat
   allocInp : CeltAlloc.Inp   -- the arguments of clt_compute_allocation
   alloc : CeltAlloc.Out
+  opsPf : List Op            -- the calls up to and including the post-filter block
   opsHdr : List Op           -- the calls up to (not including) clt_compute_allocation
   ops : List Op              -- all calls
   encHdr : Enc               -- coder context when clt_compute_allocation is called
@@ -313,7 +314,8 @@ def allocInpOf (cfg : EncCfg) (offs : List Nat) (trim : Nat) (bits : Int) (s : S
     s.pop.2.pop.2.pop.2.pop.1
 
 /-- everything behind the coarse energies -/
-def encTail (cfg : EncCfg) (sil size1 : Nat) (pf : PfOut) (isT intra : Nat) (qs qds : List Int) (s4 : St) : Res EncHdr :=
+def encTail (cfg : EncCfg) (sil size1 : Nat) (pf : PfOut) (opsPf : List Op) (isT intra : Nat) (qs qds : List Int) (s4 : St) :
+    Res EncHdr :=
   let totalBits : Int := ((size1 * 8 : Nat) : Int)
   let t := encTf cfg isT s4
   let sp := encSpread totalBits t.2.2.2
@@ -329,7 +331,7 @@ def encTail (cfg : EncCfg) (sil size1 : Nat) (pf : PfOut) (isT intra : Nat) (qs 
   | .ok o =>
     .ok { silence := sil, pf := pf, isTransient := isT, intra := intra, coarse := qs, coarseDec := qds, tfRes := t.1,
           tfRaw := t.2.2.1, tfSelect := t.2.1, spread := sp.1, offsets := dy.1, totalBoost := dy.2.1, trim := tr.1,
-          size := vb.1, bits := bits0 - acr, antiCollapseRsv := acr, allocInp := inp, alloc := o, opsHdr := vb.2.ops,
+          size := vb.1, bits := bits0 - acr, antiCollapseRsv := acr, allocInp := inp, alloc := o, opsPf := opsPf, opsHdr := vb.2.ops,
           ops := se.ops ++ o.ops.map allocOp, encHdr := vb.2.e, enc := encRun se.e (o.ops.map allocOp) }
   | .err e => .err e
   | .oob => .oob
@@ -342,7 +344,7 @@ def encHeader (cfg : EncCfg) (s0 : St) : Res EncHdr :=
   let r2 := encPostFilter cfg totalBits r1.2.2.1 r1.2.2.2
   let r3 := encTransient cfg totalBits r2.2
   match encCoarse cfg totalBits r3.2 with
-  | .ok (intra, qs, qds, s4) => encTail cfg r1.1 r1.2.1 r2.1 r3.1 intra qs qds s4
+  | .ok (intra, qs, qds, s4) => encTail cfg r1.1 r1.2.1 r2.1 r2.2.ops r3.1 intra qs qds s4
   | .err e => .err e
   | .oob => .oob
   | .abort => .abort
